@@ -233,7 +233,18 @@ def cstr(n: ast.AST) -> str:
     if isinstance(n, ast.JoinedStr):
         return 'fstr'
     if isinstance(n, ast.Lambda):
-        return 'lambda(%s:%s)' % (','.join(a.arg for a in n.args.args), term(n.body))
+        names = [a.arg for a in n.args.args]
+        body = _alpha(n.body, names)
+        return 'lambda(%d:%s)' % (len(names), term(body))
+    if isinstance(n, (ast.GeneratorExp, ast.ListComp, ast.SetComp, ast.DictComp)) and not getattr(n, '_alpha_done', False):
+        names = []
+        for g in n.generators:
+            for x in ast.walk(g.target):
+                if isinstance(x, ast.Name) and x.id not in names:
+                    names.append(x.id)
+        n2 = _alpha(n, names)
+        n2._alpha_done = True
+        return cstr(n2)
     if isinstance(n, (ast.GeneratorExp, ast.ListComp, ast.SetComp)):
         gens = ';'.join('%s in %s%s' % (term(g.target), term(g.iter),
                                          ''.join(' if ' + cond_str(c) for c in g.ifs)) for g in n.generators)
@@ -250,6 +261,17 @@ def cstr(n: ast.AST) -> str:
         return ast.unparse(n)
     except Exception:  # pragma: no cover
         return '<%s>' % type(n).__name__
+
+
+def _alpha(node, names):
+    """rename bound variables positionally (%b1, %b2, ..): alpha-equivalent terms get one string"""
+    import copy
+    m = {nm: '%%b%d' % (i + 1) for i, nm in enumerate(names)}
+    n2 = copy.deepcopy(node)
+    for x in ast.walk(n2):
+        if isinstance(x, ast.Name) and x.id in m:
+            x.id = m[x.id]
+    return n2
 
 
 # ----------------------------------------------------------------------------
